@@ -1,5 +1,5 @@
 #!/bin/bash
-# tools/integrate.sh <worker>: copy a worker's NEW/changed package files into /verif (shared files are listed, not copied).
+# tools/integrate.sh <worker>: copy a worker's NEW/changed package files into /verif. ONLY for a worker whose copy was taken from the CURRENT /verif: a stale copy reverts other packages (then copy the reported files by hand).
 n=$1; src=/var/tmp/agents/$n/verif
 cd $src || exit 1
 stage=/var/tmp/stage.$n; rm -rf $stage; mkdir -p $stage   # never rsync --compare-dest=X into X: it deletes identical files
